@@ -227,7 +227,7 @@ def monitor(case, impl):
 
 
 WAIT_EXPECT = {"before": True, "after": False, "closed": True, "closedinit": True, "cbslow": True,
-               "zero": False, "neg": False, "zeroclosed": True, "reuse": True, "closedtiny": True}
+               "zero": False, "neg": False, "zeroclosed": True, "reuse": True, "closedtiny": True, "cbwait": True}
 
 
 def monitor_wait(case, impl):
@@ -241,6 +241,9 @@ def monitor_wait(case, impl):
     ms = int(mo.group(2))
     exp = WAIT_EXPECT[m["mode"]]
     timeout, delta = int(m["timeout"]), int(m["delta"])
+    if m["mode"] == "cbwait" and not res:
+        return ("waitutil-result", "WaitUtil(0 / -1s / 1ms) called while the closing call's callback was still running (by the callback itself or by a waiter "
+                "just released by <-C()) returned false in %d of 200 rounds: the channel was closed already, so the close happened before the timeout" % ms)
     if m["mode"] == "closedtiny" and not res:
         return ("waitutil-result", "WaitUtil with a zero / negative / 1 ns .. 20 us timeout on objects closed BEFORE the call returned false %d times of 40000: "
                 "the close happened before the timeout" % ms)
@@ -450,6 +453,7 @@ def gen_wait(tier):
             cases.append("c16w mode=%s timeout=%d delta=%d" % (mode, timeout, delta))
     cases.append("c16w mode=reuse timeout=20 delta=1")
     cases.append("c16w mode=closedtiny timeout=0 delta=0")
+    cases.append("c16w mode=cbwait timeout=0 delta=0")
     return cases
 
 
